@@ -71,6 +71,10 @@ def check_case(p, ctx):
             f.write(text)
         se = call(fs.surface_evolver.SurfaceEvolver, fn)
         V, E, C = se.vertices, se.edges, se.cells
+        if p["wseed"] % 4 == 0:
+            # the lattice asked for a second time from the same parser object (fresh elements, same content)
+            V, E, C = call(se.create_lattice)
+            ctx.count("lattice-created-a-second-time")
         # ---- vertices
         used = set()
         for fid, loop, lm, area in m.faces:
